@@ -30,6 +30,10 @@ func (d *numberDecoder) DecodeStream(s *Stream, depth int64, p unsafe.Pointer) e
 	if err != nil {
 		return err
 	}
+	if bytes == nil {
+		// null: the value stays as it is
+		return nil
+	}
 	if !validNumber(bytes) {
 		return errors.ErrSyntax(invalidNumberMessage(bytes), s.totalOffset())
 	}
@@ -42,6 +46,10 @@ func (d *numberDecoder) Decode(ctx *RuntimeContext, cursor, depth int64, p unsaf
 	bytes, c, err := d.decodeByte(ctx.Buf, cursor)
 	if err != nil {
 		return 0, err
+	}
+	if bytes == nil {
+		// null: the value stays as it is
+		return c, nil
 	}
 	if !validNumber(bytes) {
 		return 0, errors.ErrSyntax(invalidNumberMessage(bytes), c)
